@@ -853,6 +853,27 @@ static int vnadata_save_common(vnadata_t *vdp, FILE *fp, const char *filename,
 		goto out;
 	    }
 	}
+
+	/*
+	 * They have to stay increasing when printed with the requested
+	 * number of digits.
+	 */
+	if (vdip->vdi_fprecision < 17) {
+	    for (int findex = 1; findex < frequencies; ++findex) {
+		char b0[64], b1[64];
+
+		(void)snprintf(b0, sizeof(b0), "%.*e",
+			vdip->vdi_fprecision - 1, frequency_vector[findex - 1]);
+		(void)snprintf(b1, sizeof(b1), "%.*e",
+			vdip->vdi_fprecision - 1, frequency_vector[findex]);
+		if (!(strtod(b1, NULL) > strtod(b0, NULL))) {
+		    _vnadata_error(vdip, VNAERR_USAGE, "%s: a frequency "
+			    "precision of %d digits cannot tell %s from its "
+			    "neighbour", function, vdip->vdi_fprecision, b1);
+		    goto out;
+		}
+	    }
+	}
     }
 
     /*
